@@ -18,7 +18,7 @@ def sub_runs(sub, runs_by_tier):
 
 POLICY = {
     "quick": [("full-dbg", ["--depth", "6"]), ("full-rel", ["--depth", "7"]), ("full-rel", ["--depth", "5", "--max-live", "4", "--max-objects", "5", "--sizes", "0,2,4,5"])],
-    "thorough": [("full-rel", ["--depth", "8", "--max-seconds", "900"]), ("full-rel", ["--depth", "0", "--max-live", "2", "--max-objects", "3", "--sizes", "0,3,5", "--percents", "0,1,2,4,6", "--max-seconds", "900"]), ("full-dbg", ["--depth", "6"])],
+    "thorough": [("full-rel", ["--depth", "10", "--max-seconds", "900"]), ("full-rel", ["--depth", "0", "--max-live", "2", "--max-objects", "3", "--sizes", "0,3,5", "--percents", "0,1,2,4,6", "--max-seconds", "900"]), ("full-rel", ["--depth", "0", "--max-live", "3", "--max-objects", "4", "--sizes", "0,2,5", "--percents", "0,2,6", "--max-seconds", "900"]), ("full-dbg", ["--depth", "6"])],
 }
 
 GRID = {
@@ -34,10 +34,13 @@ CONTAINERS = {
     "thorough": [("full-rel", ["--depth", "8", "--set", "full"]), ("full-dbg", ["--depth", "6", "--set", "full"]), ("nofin-rel", ["--depth", "7", "--set", "full"]), ("full-rel", ["--depth", "6", "--set", "full", "--n", "3"])],
 }
 
+RCCHAIN = {"quick": [("full-dbg", ["--max-n", "520", "--extra", "1000,1023,1024,1025,2048,4096,10000"]), ("nofin-rel", ["--max-n", "130", "--extra", "1024,4096"]), ("min-dbg", ["--max-n", "130", "--extra", "1024"])],
+           "thorough": [("full-rel", ["--max-n", "2100", "--extra", "4095,4096,4097,8192,10000,16384,20000"]), ("full-dbg", ["--max-n", "1100", "--extra", "2048,4096,10000"]), ("min-dbg", ["--max-n", "600", "--extra", "1024,4096"]), ("nofin-rel", ["--max-n", "600", "--extra", "1024,4096,10000"])]}
 CHAIN = {"quick": [("full-dbg", ["--max-n", "24"])], "thorough": [("full-dbg", ["--max-n", "40"]), ("full-rel", ["--max-n", "40"])]}
 
 ENGINES = {
     "C06": [sub_runs("chain", CHAIN)],
+    "C04": [sub_runs("rcchain", RCCHAIN)],
     "C03": [sub_runs("grid", GRID)],
     "C13": [sub_runs("grid", GRID)],
     "C15": [sub_runs("policy", POLICY)],
